@@ -283,7 +283,9 @@ def r11_3(ctx):
     final_return_checks(ctx)
     fs = idx.func("RZILTransformer.emit_stmt_blocks")
     sorts = [n for n in ast.walk(fs.node) if isinstance(n, ast.Call) and call_name(n) == "sorted"]
-    from .c16 import exec_dependency_walk
+    from .c16 import effect_operand_lists, exec_dependency_walk
+
+    effect_operand_lists(ctx)  # ... and that list starts from every operand of the effect
 
     exec_dependency_walk(ctx)  # declared before first use: every operation below the effect is in the list that is declared in front of it
     ctx.check("statement blocks: dependencies ordered by creation id", len(sorts) == 1 and sorted_by_num_id(sorts[0]), "sorted(<effect>.get_exec_op_list(), key=lambda v: v.num_id)", str([U(x) for x in sorts]), fn_where(idx, fs))
